@@ -592,9 +592,13 @@ func propC06(t *rapid.T, r *vstat.Run) {
 				// recursive systems: whatever Build accepts must parse without unbounded recursion
 				g, _ = gram.GenRecSystem(t)
 			} else {
-				g = gram.GenGrammar(t, gram.GenOpts{MaxProds: 4, MaxDepth: 3, TrapPercent: 15, PosStyles: true, MixedUnion: true, Profiles: true, Parseables: true, NameElided: rapid.IntRange(0, 7).Draw(t, "named") == 0})
+				g = gram.GenGrammar(t, gram.GenOpts{MaxProds: 4, MaxDepth: 3, TrapPercent: 15, PosStyles: true, MixedUnion: true, Profiles: true, Parseables: true, BadElide: true, NameElided: rapid.IntRange(0, 7).Draw(t, "named") == 0})
 			}
 			b, msg := buildGrammar(g)
+			if msg != "" && len(g.ExtraElide) > 0 {
+				r.Count("misspelt_option_rejected_by_Build")
+				return
+			}
 			if msg != "" {
 				r.Count("build_failed_left_to_C19")
 				return
